@@ -71,6 +71,42 @@ def gen(chk):
         if n not in arm:
             raise core.Infra("arm64 DATA symbol %s not found" % n)
     g.one("asm_arm64_data", "asm.arm64", sbox=arm["SBox"], fk=arm["FK"], ck=arm["CK"])
+    # constants that the arm64 files build with instruction immediates instead of DATA blocks: the GHASH reduction
+    # constant (register macro `Reduce`: x^128 + x^7 + x^2 + x + 1 -> 0x87 in each 64-bit lane) and the 64-byte table
+    # stride of the TBL-based S-box (`CONST`).  Every initialisation of either register is evaluated: VMOVI $imm, R.B16
+    # gives sixteen bytes imm; MOVD $imm, Rn ; VDUP Rn, R.D2 gives two 64-bit lanes imm.
+    import re
+    inits = []
+    for fn in ("gcm_arm64.s", "asm_arm64.s"):
+        txt = open(os.path.join(sm4, fn)).read()
+        defs = dict(re.findall(r"#define\s+(\w+)\s+(V\d+)\b", txt))
+        names = {v: k for k, v in defs.items() if k in ("Reduce", "CONST")}
+        lines = [l.split("//")[0].strip().rstrip("\\").strip() for l in txt.splitlines()]
+        gpr = {}
+        for l in lines:
+            m = re.match(r"MOVD\s+\$(0x[0-9a-fA-F]+|\d+),\s*(R\d+)$", l)
+            if m:
+                gpr[m.group(2)] = int(m.group(1), 0)
+                continue
+            m = re.match(r"VMOVI\s+\$(0x[0-9a-fA-F]+|\d+),\s*(\w+)\.B16$", l)
+            if m and (m.group(2) in ("Reduce", "CONST") or m.group(2) in names):
+                nm = m.group(2) if m.group(2) in ("Reduce", "CONST") else names[m.group(2)]
+                v = int(m.group(1), 0)
+                inits.append(dict(reg=nm, file=fn, bytes=[v & 0xff] * 16))
+                continue
+            m = re.match(r"VDUP\s+(R\d+),\s*(\w+)\.D2$", l)
+            if m and (m.group(2) in ("Reduce", "CONST") or m.group(2) in names):
+                nm = m.group(2) if m.group(2) in ("Reduce", "CONST") else names[m.group(2)]
+                if m.group(1) not in gpr:
+                    raise core.Infra("arm64: VDUP of a register whose immediate was not seen (%s: %s)" % (fn, l))
+                inits.append(dict(reg=nm, file=fn, bytes=list(gpr[m.group(1)].to_bytes(8, "little")) * 2))
+                continue
+            m = re.match(r"V\w+\s+.*,\s*(Reduce|CONST)\.\w+$", l)
+            if m and not l.startswith(("VPMULL", "VTBL", "VSUB", "VEOR", "VTBX")):
+                pass
+    if not any(i["reg"] == "Reduce" for i in inits) or not any(i["reg"] == "CONST" for i in inits):
+        raise core.Infra("arm64: initialisation of Reduce / CONST not found in a form this check evaluates")
+    g.one("asm_arm64_immediates", "asm.arm64imm", inits=inits)
     return g.cmds
 
 
